@@ -10,7 +10,7 @@ ID = "C18"
 RULE = (
     "case = (3-10 glyphs over Latin/Cyrillic/Arabic/Hebrew/neutral/unencoded glyphs, ligatures and GSUB alternates incl. alternates and ligatures reachable only "
     "through rules that also involve a script-neutral glyph; public.openTypeCategories with valid, invalid, missing-glyph and skipped-glyph entries; caret_/vcaret_ "
-    "anchors incl. duplicates, coordinate 0, fractional and x.5 values; entry/exit anchors one-sided, suffixed .LTR/.RTL/.other; optional user GDEF block defining "
+    "anchors incl. duplicates, coordinate 0, fractional and x.5 values; entry/exit anchors one-sided, suffixed .LTR/.RTL/.other and compound (.2.LTR, .alt.RTL), one or two pairs per glyph; optional user GDEF block defining "
     "GlyphClassDef and/or LigatureCaret; optional skipExportGlyphs; writers passed as classes or as instances that were first used on a different font) x "
     "{ufoLib2, defcon}; oracle = GDEF.GlyphClassDef == categories restricted to exported glyphs (or exactly the user's), LigCaretList == sorted distinct rounded caret "
     "coordinates, one EntryExitRecord per glyph and anchor pair with the rounded coordinates (missing side NULL) in a lookup whose RightToLeft flag is cleared exactly for "
@@ -49,12 +49,13 @@ def _font(draw, force_names=None):
         g = {"name": n, "width": 500, "unicodes": [u] if u else [], "contours": [[[0, 0, "line"], [100, 0, "line"], [100, 100, "line"]]], "anchors": []}
         r = draw(st.integers(0, 9))
         if r <= 4:
-            sfx = draw(st.sampled_from(["", "", "", ".LTR", ".RTL", ".foo"]))
-            which = draw(st.sampled_from(["both", "entry", "exit"]))
-            if which in ("both", "entry"):
-                g["anchors"].append({"name": "entry" + sfx, "x": draw(coord), "y": draw(coord)})
-            if which in ("both", "exit"):
-                g["anchors"].append({"name": "exit" + sfx, "x": draw(coord), "y": draw(coord)})
+            sfxs = draw(st.lists(st.sampled_from(["", "", "", ".LTR", ".RTL", ".foo", ".2.LTR", ".alt.RTL", ".2.RTL", ".alt.LTR", ".1"]), min_size=1, max_size=2, unique=True))
+            for sfx in sfxs:
+                which = draw(st.sampled_from(["both", "entry", "exit"]))
+                if which in ("both", "entry"):
+                    g["anchors"].append({"name": "entry" + sfx, "x": draw(coord), "y": draw(coord)})
+                if which in ("both", "exit"):
+                    g["anchors"].append({"name": "exit" + sfx, "x": draw(coord), "y": draw(coord)})
         if r in (5, 6) or "_" in n:
             pre = draw(st.sampled_from(["caret_", "caret_", "vcaret_"]))
             for i in range(draw(st.integers(1, 3))):
@@ -270,6 +271,8 @@ def run_case(case, ctx):
         ctx.label("mixed-direction")
     if onesided:
         ctx.label("one-sided-cursive")
+    if any(a["name"].count(".") >= 2 for n in order if n in gi for a in gi[n]["anchors"]):
+        ctx.label("compound-direction-suffix")
     if cats is not None:
         ctx.label("categories")
     if exp_carets:
